@@ -73,7 +73,7 @@ func renderLevels(sp *spec.Spec) string {
 func checkModel(m *ref.SpecModel, src string) error {
 	var sp *spec.Spec
 	var err error
-	if perr := rec.Guard(func() { sp, err = spec.Parse("t.ebnf", strings.NewReader(src)) }); perr != nil {
+	if perr := rec.Guard(func() { sp, err = spec.Parse("t.ebnf", ref.Source(src)) }); perr != nil {
 		return fmt.Errorf("%v\nspecification:\n%s", perr, src)
 	}
 	if err != nil {
@@ -296,7 +296,7 @@ func checkNoAddedProductions(m *ref.SpecModel, sp *spec.Spec, src string) error 
 	psrc := plain.Text()
 	var psp *spec.Spec
 	var err error
-	if perr := rec.Guard(func() { psp, err = spec.Parse("t.ebnf", strings.NewReader(psrc)) }); perr != nil || err != nil {
+	if perr := rec.Guard(func() { psp, err = spec.Parse("t.ebnf", ref.Source(psrc)) }); perr != nil || err != nil {
 		return nil // the specification without directives is not this property's concern
 	}
 	rec.Count("handles_all_naming_rule_productions", 1)
